@@ -232,6 +232,12 @@ func (m *BaseUndoLogManager) FlushUndoLog(tranCtx *types.TransactionContext, con
 	if err != nil {
 		return err
 	}
+	// the context stored beside the log names the compressor: rollback decompresses with it
+	// (getRollbackInfo), so the log has to be compressed with the same one here
+	rollbackInfo, err = compressor.CompressorType(parseContext[compressorTypeKey]).GetCompressor().Compress(rollbackInfo)
+	if err != nil {
+		return err
+	}
 
 	return m.InsertUndoLog(undo.UndologRecord{
 		BranchID:     tranCtx.BranchID,
